@@ -402,6 +402,80 @@ fn boundary_width(input: &str, cfg: &Cfg, r: &mut Rng) -> u32 {
     (l + d).max(1) as u32
 }
 
+/// `mlscancel` family: a multi-line string followed by a tail on the closing-quote line, laid out so that the
+/// re-indentation keeps the literal's total byte length while moving the closing quotes (an emptied blank-only line or a
+/// dropped CR cancels the added indentation), with a wrap column between the old and the new width of that line.
+/// The final indentation is read off a first formatting run.
+fn mls_cancel_case(r: &mut Rng) -> (String, Cfg) {
+    let mut cfg = Cfg::random(r);
+    cfg.use_tabs = false;
+    cfg.fmt_mls = true;
+    if cfg.tab_width == 0 || cfg.tab_width > 8 {
+        cfg.tab_width = 2;
+    }
+    if cfg.cont > 8 {
+        cfg.cont = 2;
+    }
+    let k = r.range(1, 3);
+    let tail_len = r.range(40, 100);
+    let mut tail = String::from(r.pick_str(&[".Format([", " + Concat(", ".Replace("]));
+    let mut i = 0;
+    while tail.len() < tail_len {
+        if i > 0 {
+            tail.push_str(", ");
+        }
+        tail.push_str(r.pick_str(&["SomeOtherFunction(Argument1, Argument2)", "Another", "BBBBBBBBBBBBBBB", "YetAnotherArgument", "AndMore", "More", "X"]));
+        i += 1;
+    }
+    tail.push_str(if tail.starts_with(".Format") { "]);" } else { ");" });
+    let build = |ind: usize, blank: Option<usize>, nl: &str| -> String {
+        let pad = " ".repeat(ind);
+        let mut s = format!("procedure Foo;{nl}begin{nl}  A :={nl}{pad}'''{nl}");
+        for j in 0..k {
+            s.push_str(&format!("{pad}line{j}{nl}"));
+            if j == 0 {
+                if let Some(b) = blank {
+                    s.push_str(&" ".repeat(b));
+                    s.push_str(nl);
+                }
+            }
+        }
+        s.push_str(&format!("{pad}'''{tail}{nl}end;{nl}"));
+        s
+    };
+    // final indentation of the closing quotes at a generous width
+    let mut wide = cfg.clone();
+    wide.wrap_column = 400;
+    wide.crlf = false;
+    let probe = build(4, None, "\n");
+    let out = std::panic::catch_unwind(|| stages::run_real(&probe, &wide, &[]).0).ok().map(|o| String::from_utf8_lossy(&o).to_string()).unwrap_or_default();
+    let f = out.lines().find(|l| l.trim_start().starts_with("'''") && l.contains(&tail[..6])).map(|l| l.len() - l.trim_start().len());
+    let f = match f {
+        Some(f) if f >= 2 => f,
+        _ => return (probe, cfg),
+    };
+    let lines_moved = k + 1;
+    let (input, d) = if r.chance(1, 2) {
+        // CRLF input written with LF: every line loses one byte, so a literal one column short keeps its length
+        cfg.crlf = false;
+        (build(f - 1, None, "\r\n"), 1usize)
+    } else {
+        // a blank-only line (a prefix of the indentation) is emptied: it must hold lines_moved * d blanks
+        let d = r.range(1, 2);
+        if f < d || lines_moved * d > f - d {
+            cfg.crlf = false;
+            (build(f - 1, None, "\r\n"), 1usize)
+        } else {
+            (build(f - d, Some(lines_moved * d), "\n"), d)
+        }
+    };
+    let new_width = f + 3 + tail.len();
+    // a wrap column that the old closing-quote line fits and the new one does not (and its neighbours)
+    let w = (new_width as i64 - r.range(0, d + 1) as i64).max(1) as u32;
+    cfg.wrap_column = w;
+    (input, cfg)
+}
+
 fn gen_inputs(family: &str, rng: &mut Rng, n: usize, seeds: &[String]) -> Vec<String> {
     let mut v = Vec::with_capacity(n);
     match family {
@@ -712,6 +786,14 @@ fn cmd_emit(a: &Args) {
     }
     let per = if only.is_empty() { (count + families.len() - 1) / families.len().max(1) } else { 0 };
     for fam in &families {
+        if fam == "mlscancel" {
+            let mut r = rng.fork();
+            for _ in 0..per {
+                let (input, cfg) = mls_cancel_case(&mut r);
+                cases.push(Case { stream: stream.clone(), family: fam.clone(), input, cfg, cursors: vec![], oracles: oracle_list.clone(), well_formed: true, w2: 200, input2: None, marks: vec![], texts: vec![] });
+            }
+            continue;
+        }
         if fam == "tokfam" {
             let mut r = rng.fork();
             for _ in 0..per {
